@@ -105,7 +105,7 @@ func mutationsOf(ti int, s string, alt, stride int, rng interface{ Intn(int) int
 func TestC21Mutations(t *testing.T) {
 	r := vh.New("C21", "mutations")
 	r.Rule = "case = one mutation of a valid token string: each position x {other hex digits, a non-hex character, upper-case spelling, deletion}, insertion of a hex digit and of a non-hex character at each position, truncation to every length; " +
-		"quick: token 1 gets 1 other hex digit at every position and every truncation, tokens 2-3 every 4th position / even length; thorough: 3 tokens with all 15 other digits at every position and every truncation, 47 more tokens thinned like quick; " +
+		"quick: token 1 gets 1 other hex digit at every 2nd position and every 2nd even-length truncation beyond the header, tokens 2-3 every 8th (the free classes - non-hex, odd lengths, deletions, insertions - are complete for all); thorough: 3 tokens with all 15 other digits at every position and every truncation, 47 more tokens thinned like quick; " +
 		"distinct = distinct mutated strings; non-trivial = the mutated string is still well-formed hex of even length (so the decryption is attempted)"
 	r.Assume("a mutated string whose hex decoding equals the original bytes (upper-case digit) is the same token and may be accepted")
 
@@ -133,8 +133,16 @@ func TestC21Mutations(t *testing.T) {
 
 		toks = append(toks, rec)
 
+		// each hex-valid substitution and each even-length truncation costs an Argon2id derivation
+		// (45 ms to more than a second on this VM), which sizes the quick tier
 		a, stride := alt, 1
-		if (vh.Tier() != "thorough" && i > 0) || i >= 3 {
+
+		switch {
+		case vh.Tier() != "thorough" && i == 0:
+			a, stride = 1, 2
+		case vh.Tier() != "thorough":
+			a, stride = 1, 8
+		case i >= 3:
 			a, stride = 1, 4
 		}
 
